@@ -28,33 +28,35 @@ type LoopSpec struct {
 }
 
 type Contract struct {
-	Name         string
-	Props        []string
-	Requires     []*Clause
-	Ensures      []*Clause
-	Lets         []*Clause // Label = name
-	Loops        map[int]*LoopSpec
-	Ranges       map[int]*LoopSpec // sync.Map.Range call sites, by ordinal
-	Frames       map[string][]string
-	Modifies     []string
-	Inline       bool
-	Pure         bool        // modifies nothing (checked)
-	Trusted      bool        // contract assumed, body not verified (externals)
-	Thread       bool        // body runs as its own goroutine
-	Holds        [][3]string // tokens owned at entry (thread closures)
-	Flags        map[string]string
-	Like         string
-	Subst        [][2]string
-	Guards       []GuardRule          // type blocks: field/call-out guard discipline
-	LockInvs     map[string][]*Clause // type blocks: mutex field -> invariant clauses over "self"
-	Interference bool                 // type blocks: guarded fields are havocked at Lock (other threads may have changed them)
-	TokenMaps    []string
-	NoCallOut    []string
-	MapInserts   map[string][]*Clause
-	ChanPubs     map[string][]*Clause
-	Published    map[string][]string
-	Line         int
-	File         string
+	Name            string
+	Props           []string
+	Requires        []*Clause
+	Ensures         []*Clause
+	Lets            []*Clause // Label = name
+	Loops           map[int]*LoopSpec
+	Ranges          map[int]*LoopSpec // sync.Map.Range call sites, by ordinal
+	Frames          map[string][]string
+	Modifies        []string
+	Inline          bool
+	Pure            bool        // modifies nothing (checked)
+	Trusted         bool        // contract assumed, body not verified (externals)
+	Thread          bool        // body runs as its own goroutine
+	Holds           [][3]string // tokens owned at entry (thread closures)
+	Flags           map[string]string
+	Like            string
+	Subst           [][2]string
+	Guards          []GuardRule          // type blocks: field/call-out guard discipline
+	LockInvs        map[string][]*Clause // type blocks: mutex field -> invariant clauses over "self"
+	Interference    bool                 // type blocks: guarded fields are havocked at Lock (other threads may have changed them)
+	TokenMaps       []string
+	AtomicFields    []string // accessed only through sync/atomic once the object is shared
+	ImmutableFields []string // never written once the object is shared
+	NoCallOut       []string
+	MapInserts      map[string][]*Clause
+	ChanPubs        map[string][]*Clause
+	Published       map[string][]string
+	Line            int
+	File            string
 }
 
 // GuardRule: accesses of Field (or call-outs of kind Field when CallOut) need the sibling mutex Lock.
@@ -224,6 +226,12 @@ func parseContracts(path string) ([]*Contract, []*SpecDef, error) {
 		case "interference":
 			cur.Interference = true
 			last = nil
+		case "atomic":
+			cur.AtomicFields = append(cur.AtomicFields, strings.Fields(rest)...)
+			last = nil
+		case "immutable":
+			cur.ImmutableFields = append(cur.ImmutableFields, strings.Fields(rest)...)
+			last = nil
 		case "nocallout":
 			cur.NoCallOut = append(cur.NoCallOut, strings.Fields(rest)...)
 			last = nil
@@ -275,6 +283,9 @@ func parseContracts(path string) ([]*Contract, []*SpecDef, error) {
 			last = nil
 		case "flag":
 			k, v := splitWord(rest)
+			if v == "" {
+				v = "yes"
+			}
 			cur.Flags[k] = v
 			last = nil
 		case "requires":
